@@ -484,8 +484,8 @@ def ipv4_special(v, fn, I, file, ip, path):
     fn('set_payload', 'C04:body C11:post', [
         'requires old(self).wf(), old(self).is_mut(), 20 + Self::spec_options_length(old(self).bytes()) + vals@.len() <= old(self).bytes().len(),',
         'ensures final(self).is_mut(), final(self).bytes() =~= ({ let s = 20 + Self::spec_options_length(old(self).bytes()); old(self).bytes().subrange(0, s) + vals@ + old(self).bytes().subrange(s + vals@.len() as int, old(self).bytes().len() as int) }),'])
-    fn('payload', 'C04:body C12:post', ['requires self.wf(),',
-       'ensures r@ == ({ let s = 20 + Self::spec_options_length(self.bytes()); if s <= self.bytes().len() { self.bytes().subrange(s, self.bytes().len() as int) } else { Seq::<u8>::empty() } }),'])
+    emit(I + 'pub open spec fn spec_payload(b: Seq<u8>) -> Seq<u8> { let s = 20 + Self::spec_options_length(b); if s <= b.len() { b.subrange(s, b.len() as int) } else { Seq::<u8>::empty() } }')
+    fn('payload', 'C04:body C12:post', ['requires self.wf(),', 'ensures r@ == Self::spec_payload(self.bytes()),'])
 
 
 def ipv4_after(v, indent, file, path):
@@ -508,8 +508,8 @@ def ipv6_special(v, fn, I, file, ip, path):
         '    vals@.len() <= old(self).bytes()[4] as int * 256 + old(self).bytes()[5] as int,   // debug_assert!(vals.len() <= payload_length) must hold',
         'ensures final(self).is_mut(), final(self).bytes() =~= old(self).bytes().subrange(0, 40) + vals@ + old(self).bytes().subrange(40 + vals@.len() as int, old(self).bytes().len() as int),'],
        ['rwre "debug_assert!\\(\\s*([^,]+),\\s*\\"[^\\"]*\\"\\s*\\);" => "if !(\\1) { panic!(); }"'])
-    fn('payload', 'C04:body C12:post', ['requires self.wf(),',
-       'ensures r@ == ({ let pl = self.bytes()[4] as int * 256 + self.bytes()[5] as int; let e = if 40 + pl <= self.bytes().len() { 40 + pl } else { self.bytes().len() as int }; if self.bytes().len() <= 40 { Seq::<u8>::empty() } else { self.bytes().subrange(40, e) } }),'])
+    emit(I + 'pub open spec fn spec_payload(b: Seq<u8>) -> Seq<u8> { let pl = b[4] as int * 256 + b[5] as int; let e = if 40 + pl <= b.len() { 40 + pl } else { b.len() as int }; if b.len() <= 40 { Seq::<u8>::empty() } else { b.subrange(40, e) } }')
+    fn('payload', 'C04:body C12:post', ['requires self.wf(),', 'ensures r@ == Self::spec_payload(self.bytes()),'])
 
 
 SPECIAL['ipv6_special'] = ipv6_special
